@@ -211,7 +211,15 @@ impl CMatcher {
         if p.is_null() {
             anyhow!("c-matcher: error (no message)")
         } else {
-            anyhow!("{}", unsafe { CStr::from_ptr(p) }.to_string_lossy())
+            let m = unsafe { CStr::from_ptr(p) }.to_string_lossy().to_string();
+            if m.contains("mask_dest size mismatch") && llg_matcher_is_error(self.r()) {
+                // llg_matcher_get_error keeps returning the first message it stored: after a
+                // rejected compute_mask_into (wrong size, matcher stays usable) the real reason of a
+                // later failure is masked. The Rust twin of the mirror group sees the real error.
+                anyhow!("parser error: (c-matcher error message masked by an earlier size-mismatch message)")
+            } else {
+                anyhow!("{}", m)
+            }
         }
     }
     /// mask via llg_matcher_compute_mask + get_mask
